@@ -26,7 +26,8 @@ LEVEL_NOTE = (
 )
 BUDGET = {"quick": 45.0, "thorough": 600.0}
 RULE = (
-    "seeded (configuration x shapes of order 0..4 incl. size-1 dims x max_preconditioner_dim x merge on/off x groups x history); "
+    "seeded (configuration x shapes of order 0..4 incl. size-1 dims x max_preconditioner_dim x merge on/off x groups x history; "
+    "15% with a parameter in a permuted dense memory layout, 30% with equal-shaped parameters whose gradients alternate); "
     "non-trivial = at least one multi-block or merged parameter tiled and one twin comparison; distinct = distinct (shape, max dim, merge) "
     "triples are folded into the configuration feature vector + phases"
 )
